@@ -534,6 +534,8 @@ op_recv(SWorld &w, size_t ci, int tmo)
 		// one aio used again and again, as applications do
 		u       = c.spare;
 		c.spare = NULL;
+		if (W(0, 1) == 0)
+			tmo = c.spare_tmo; // the timeout set once and left alone
 		if (tmo != c.spare_tmo)
 			nng_aio_set_timeout(u->aio, tmo < 0 ? NNG_DURATION_INFINITE : (nng_duration) tmo);
 		sim_probe("c07_recv_aio_reused");
